@@ -76,7 +76,7 @@ func trimStack(s string) string {
 	lines := strings.Split(s, "\n")
 	var keep []string
 	for _, l := range lines {
-		if strings.Contains(l, "DemoHn/Zn") {
+		if strings.Contains(l, "DemoHn/Zn") || strings.Contains(l, "/repo/") {
 			keep = append(keep, strings.TrimSpace(l))
 			if len(keep) >= 6 {
 				break
